@@ -2,6 +2,7 @@ package drv
 
 import (
 	"bytes"
+	"crypto/sha1"
 	"encoding/json"
 	"fmt"
 	"net"
@@ -261,10 +262,56 @@ func quiesce() error {
 
 // ---------------------------------------------------------------------------- projection
 
+// stPart is one write as the gate sees it.  A write that is a whole number of protocol units has its
+// own kind; a write that is the i-th of `of` consecutive writes which only together form a unit is a
+// "piece" of that unit (uk = kind, id, len of the unit): which writes belong together is learnt at the
+// healthy consumer, which is handed every write of a call, and recognised elsewhere by content.
 type stPart struct {
 	K   string `json:"k"`
+	Uk  string `json:"uk"`
 	Id  int    `json:"id"`
 	Len int    `json:"len"`
+	I   int    `json:"i"`
+	Of  int    `json:"of"`
+}
+
+func classifyU(proto string, b []byte) stPart {
+	p := classify(proto, b)
+	p.Uk = p.K
+	return p
+}
+
+// groupPieces classifies consecutive writes, joining runs that are no units by themselves.
+func groupPieces(proto string, ws [][]byte, reg map[[20]byte]stPart) []stPart {
+	out := make([]stPart, 0, len(ws))
+	for i := 0; i < len(ws); {
+		p := classifyU(proto, ws[i])
+		if p.K != "frag" {
+			out = append(out, p)
+			i++
+			continue
+		}
+		joined := append([]byte{}, ws[i]...)
+		found := 0
+		for j := i + 1; j < len(ws) && j < i+64; j++ {
+			joined = append(joined, ws[j]...)
+			if u := classifyU(proto, joined); u.K != "frag" {
+				for k := i; k <= j; k++ {
+					pc := stPart{K: "piece", Uk: u.K, Id: u.Id, Len: u.Len, I: k - i + 1, Of: j - i + 1}
+					reg[sha1.Sum(ws[k])] = pc
+					out = append(out, pc)
+				}
+				found = j - i + 1
+				break
+			}
+		}
+		if found == 0 {
+			out = append(out, p)
+			found = 1
+		}
+		i += found
+	}
+	return out
 }
 
 // posCodeId finds the first position-coded run (id, block 0)(id, block 1) in b.
@@ -591,19 +638,33 @@ func runStallScenario(sc *stScenario, seed int64, skipBlocked bool) (evs []M, sl
 	}()
 
 	// snapshot: per consumer the part blocked in the gate, the parts written since the last snapshot, closed
+	pieces := map[[20]byte]stPart{}
+	one := func(b []byte) stPart {
+		p := classifyU(proto, b)
+		if p.K == "frag" {
+			if pc, ok := pieces[sha1.Sum(b)]; ok {
+				return pc
+			}
+		}
+		return p
+	}
 	snap := func(m M) {
 		infl, wire, closed := M{}, M{}, M{}
-		for _, n := range stNames {
+		for _, n := range []string{"h", "s1", "s2"} { // h first: it shows which writes form a unit together
 			c := cons[n]
 			fl, w := []stPart{}, []stPart{}
 			cl := false
 			if c != nil {
 				c.conn.mu.Lock()
-				if c.conn.waiting != nil {
-					fl = append(fl, classify(proto, c.conn.waiting.b))
-				}
-				for _, b := range c.conn.wire[c.conn.nseen:] {
-					w = append(w, classify(proto, b))
+				if n == "h" {
+					w = groupPieces(proto, c.conn.wire[c.conn.nseen:], pieces)
+				} else {
+					if c.conn.waiting != nil {
+						fl = append(fl, one(c.conn.waiting.b))
+					}
+					for _, b := range c.conn.wire[c.conn.nseen:] {
+						w = append(w, one(b))
+					}
 				}
 				c.conn.nseen = len(c.conn.wire)
 				cl = c.conn.closed
